@@ -17,6 +17,7 @@ from .shrink import ddmin
 
 PROP = "C19"
 VERIF = os.path.dirname(os.path.dirname(os.path.abspath(__file__)))
+OUT = os.environ.get("BBSIM_OUT_DIR", VERIF)      # evidence/ and replays/ go here
 OVERLAP = ["a", "aa", "ab", "b", "p", "phi", "alpha", "s", "sq", "r", "al", "ph"]
 
 
@@ -331,8 +332,8 @@ def main(a, seed):
             if v["inv"] == "D1" and ha == hb:
                 v["detail"] = "same hash seed, different result (non-hash nondeterminism): " + v["detail"]
             small = minimise(w, ha, hb, wd, v["inv"]) if ha != hb or v["inv"] == "D2" else w
-            os.makedirs(os.path.join(VERIF, "replays"), exist_ok=True)
-            path = os.path.join(VERIF, "replays", "C19-%d-%d.json" % (seed, v["world"]))
+            os.makedirs(os.path.join(OUT, "replays"), exist_ok=True)
+            path = os.path.join(OUT, "replays", "C19-%d-%d.json" % (seed, v["world"]))
             with open(path, "w") as f:
                 json.dump({"property": PROP, "seed": seed, "world": small, "hashseeds": [ha, hb],
                            "violation": v, "original_items": len(w["script"]["items"]),
@@ -384,8 +385,8 @@ def main(a, seed):
         "wall_s": round(wall, 2),
         "violations": len(reported),
     }
-    os.makedirs(os.path.join(VERIF, "evidence"), exist_ok=True)
-    with open(os.path.join(VERIF, "evidence", "C19.json"), "w") as f:
+    os.makedirs(os.path.join(OUT, "evidence"), exist_ok=True)
+    with open(os.path.join(OUT, "evidence", "C19.json"), "w") as f:
         json.dump(ev, f, indent=1)
     print("C19 tier=%s seed=%d worlds=%d interpreters=%d order_differed=%d rrt=%d wall=%.1fs" %
           (tier, seed, len(worlds), len(hs_all), stats.get("order_differed", 0), stats.get("rrt_total", 0), wall))
